@@ -70,10 +70,20 @@ def branch_style(body, rad="rad", npt="npt"):
     sector = any(isinstance(n, ast.Call) and norm(n.func).endswith("_find_degrees_for_radial_points")
                  and rad in [norm(a) for a in n.args] for n in nodes)
     count = False
+    # index variables bound by enclosing `for` statements (`for idx in range(len(rad)): acc.extend(npt[idx] for _ in range(rad[idx]))`)
+    loop_counts = set()
+    for n in nodes:
+        if isinstance(n, ast.For):
+            if isinstance(n.target, ast.Name):
+                loop_counts.add(f"{rad}[{n.target.id}]")
+            if isinstance(n.iter, ast.Call) and norm(n.iter.func) == "enumerate" and n.iter.args and norm(n.iter.args[0]) == rad and \
+                    isinstance(n.target, ast.Tuple) and len(n.target.elts) == 2:
+                loop_counts.add(norm(n.target.elts[1]))
+                loop_counts.add(f"{rad}[{norm(n.target.elts[0])}]")
     for n in nodes:
         if isinstance(n, (ast.ListComp, ast.GeneratorExp)) and any(
                 isinstance(x, ast.Subscript) and norm(x.value) == npt for x in ast.walk(n.elt)):
-            counts = {f"{rad}[{norm(g.target)}]" for g in n.generators if isinstance(g.target, ast.Name)}
+            counts = {f"{rad}[{norm(g.target)}]" for g in n.generators if isinstance(g.target, ast.Name)} | loop_counts
             for g in n.generators:   # `for idx, count in enumerate(rad)` binds the count directly
                 if isinstance(g.iter, ast.Call) and norm(g.iter.func) == "enumerate" and g.iter.args and \
                         norm(g.iter.args[0]) == rad and isinstance(g.target, ast.Tuple) and len(g.target.elts) == 2:
@@ -491,7 +501,19 @@ def rule_r3(rep, repo):
             rep.ok("R3.centre-added-once", f.qual, f.loc(), "no reference to the centre")
     init = repo.method("AtomGrid", "__init__")
     stores = [s for s in ast.walk(init.node) if isinstance(s, ast.Assign) and "self._points" in norm(s.targets[0])]
-    if len(stores) == 1 and "_generate_atomic_grid(" in norm(stores[0].value) and "center" not in norm(stores[0].value):
+    def through_locals(v):
+        # `result = self._generate_atomic_grid(...); self._points, ... = result`: a local that is assigned once stands for its value
+        seen = set()
+        while isinstance(v, ast.Name) and v.id not in seen:
+            seen.add(v.id)
+            defs = [n.value for n in ast.walk(init.node) if isinstance(n, ast.Assign) and len(n.targets) == 1
+                    and isinstance(n.targets[0], ast.Name) and n.targets[0].id == v.id]
+            if len(defs) != 1:
+                break
+            v = defs[0]
+        return v
+    if len(stores) == 1 and "_generate_atomic_grid(" in norm(through_locals(stores[0].value)) and \
+            "center" not in norm(through_locals(stores[0].value)):
         rep.ok("R3.centre-added-once", "AtomGrid.__init__", repo.rel("atomgrid", stores[0]), "stores uncentred points")
     else:
         rep.violation("R3.centre-added-once", "atomgrid.AtomGrid.__init__", "store",
